@@ -2,7 +2,8 @@
    upstream responses the real validator consulted (symbolic form), the verdicts of the real
    verify_nsec / verify_nsec3 for the NSEC subsets of those responses, and what the real
    DnssecDnsHandle::send returned.  The model is re-run on the same table and compared. *)
-From HV Require Import Lib.Base C07.Model.
+From Coq Require Import Uint63.
+From HV Require Import Lib.Base Lib.Pack C07.Model.
 Open Scope N_scope.
 
 Inductive obs :=
@@ -11,11 +12,76 @@ Inductive obs :=
 | OErr
 | OPanic.
 
-Inductive case :=
+(* structured case *)
+Inductive scase :=
 | Case (anchors : list N) (now : N) (q : query)
        (tbl : list (query * ureply))
        (ntbl : list (query * bool * list nat * N))
        (o : obs).
+
+(* transport form written by the harness: the same data as a stream of 32-bit numbers
+   (big-endian, 4 bytes each), packed; list = length then elements; constructors = tag then fields *)
+Inductive case := CaseP (p : pbytes).
+
+Fixpoint nums (bs : list N) : list N :=
+  match bs with
+  | a :: b :: c :: d :: r => (((a * 256 + b) * 256 + c) * 256 + d) :: nums r
+  | _ => []
+  end.
+
+Definition P (A : Type) := list N -> option (A * list N).
+Definition pnum : P N := fun l => match l with x :: r => Some (x, r) | [] => None end.
+Definition pmap {A B} (f : A -> B) (p : P A) : P B :=
+  fun l => match p l with Some (x, r) => Some (f x, r) | None => None end.
+Definition pbind {A B} (p : P A) (f : A -> P B) : P B :=
+  fun l => match p l with Some (x, r) => f x r | None => None end.
+Definition pret {A} (x : A) : P A := fun l => Some (x, l).
+Notation "x <- p ;; q" := (pbind p (fun x => q)) (at level 61, p at next level, right associativity).
+Fixpoint prep {A} (p : P A) (n : nat) : P (list A) :=
+  match n with
+  | O => pret []
+  | S n' => x <- p ;; xs <- prep p n' ;; pret (x :: xs)
+  end.
+Definition plist {A} (p : P A) : P (list A) := n <- pnum ;; prep p (N.to_nat n).
+Definition pbool : P bool := pmap (fun n => negb (n =? 0)) pnum.
+Definition pname : P name := plist pnum.
+Definition pquery : P query := n <- pname ;; t <- pnum ;; pret (n, t).
+Definition ptbs : P tbs :=
+  o <- pname ;; ty <- pnum ;; lb <- pnum ;; ot <- pnum ;; al <- pnum ;; ex <- pnum ;; ic <- pnum ;;
+  tg <- pnum ;; sg <- pname ;; rs <- plist pnum ;; pret (mkTbs o ty lb ot al ex ic tg sg rs).
+Definition psigval : P sigval :=
+  t <- pnum ;; if t =? 1 then (pk <- pnum ;; b <- ptbs ;; pret (SGen pk b)) else pret SBad.
+Definition pdigest : P digest :=
+  t <- pnum ;; if t =? 1 then (n <- pname ;; k <- pnum ;; pret (DGen n k)) else pret DBad.
+Definition pbody : P body :=
+  t <- pnum ;;
+  if t =? 0 then pmap BPlain pnum
+  else if t =? 1 then
+    (kid <- pnum ;; pk <- pnum ;; al <- pnum ;; tg <- pnum ;; z <- pbool ;; rv <- pbool ;; pret (BKey kid pk al tg z rv))
+  else if t =? 2 then
+    (tg <- pnum ;; al <- pnum ;; dt <- pnum ;; dg <- pdigest ;; pret (BDs tg al dt dg))
+  else
+    (tc <- pnum ;; al <- pnum ;; lb <- pnum ;; ot <- pnum ;; ex <- pnum ;; ic <- pnum ;; tg <- pnum ;;
+     sg <- pname ;; sv <- psigval ;; pret (BSig tc al lb ot ex ic tg sg sv)).
+Definition prr : P rr := o <- pname ;; i <- pnum ;; b <- pbody ;; pret (mkRR o i b).
+Definition pureply : P ureply :=
+  t <- pnum ;;
+  if t =? 0 then (rc <- pnum ;; a <- plist prr ;; u <- plist prr ;; pret (UOk (mkResp rc a u)))
+  else if t =? 1 then (rc <- pnum ;; u <- plist prr ;; pret (UNoRec rc u))
+  else pret UErr.
+Definition pobs : P obs :=
+  t <- pnum ;;
+  if t =? 0 then (rc <- pnum ;; a <- plist pnum ;; u <- plist pnum ;; pret (OOk rc a u))
+  else if t =? 1 then (p <- pnum ;; rc <- pnum ;; a <- plist pnum ;; u <- plist pnum ;; pret (ONsec p rc a u))
+  else if t =? 2 then pret OErr else pret OPanic.
+Definition pnentry : P (query * bool * list nat * N) :=
+  q <- pquery ;; b <- pbool ;; ps <- plist (pmap N.to_nat pnum) ;; p <- pnum ;; pret (q, b, ps, p).
+Definition pcase : P scase :=
+  an <- plist pnum ;; nw <- pnum ;; q <- pquery ;;
+  tb <- plist (k <- pquery ;; r <- pureply ;; pret (k, r)) ;;
+  nt <- plist pnentry ;; o <- pobs ;; pret (Case an nw q tb nt o).
+Definition decode (c : case) : option scase :=
+  match c with CaseP p => match pcase (nums (unpack p)) with Some (s, []) => Some s | _ => None end end.
 
 Definition pcode (p : proof) : N := match p with Secure => 0 | Insecure => 1 | Bogus => 2 | Indet => 3 end.
 Definition pdecode (n : N) : proof :=
@@ -38,7 +104,7 @@ Fixpoint ntbl_lookup (ntbl : list (query * bool * list nat * N)) (q : query) (n3
 
 Definition MAXD : nat := 26.   (* DnsRequestOptions::default().max_request_depth *)
 
-Definition run (c : case) : vres :=
+Definition run (c : scase) : vres :=
   match c with
   | Case anchors now q tbl ntbl _ =>
       validate (tbl_lookup tbl) anchors now MAXD
@@ -68,12 +134,13 @@ Definition obs_eqb (a b : obs) : bool :=
 
 Definition is_vfuel (v : vres) := match v with VFuel => true | _ => false end.
 
-Definition check (c : case) : bool :=
+Definition check_s (c : scase) : bool :=
   match c with
   | Case _ _ _ _ _ o => let v := run c in negb (is_vfuel v) && obs_eqb (obs_of v) o
   end.
+Definition check (c : case) : bool := match decode c with Some s => check_s s | None => false end.
 
 Definition bad (cs : list case) : list N := bad_idx check 0 cs.
 
 (* full model output for one case (used in replay files) *)
-Definition show (c : case) := obs_of (run c).
+Definition show (c : case) := match decode c with Some s => Some (s, obs_of (run s)) | None => None end.
